@@ -232,7 +232,14 @@ def main(modname, argv=None):
         simmpi.install()
         if hasattr(mod, 'worker_init'):
             mod.worker_init()
-        res = mod.run_case(body['case'])
+        prep = mod.prepare(args.tier) if hasattr(mod, 'prepare') else None
+        if prep is not None and hasattr(mod, 'rebind_case'):
+            body['case'] = mod.rebind_case(body['case'], prep)
+        try:
+            res = mod.run_case(body['case'])
+        finally:
+            if hasattr(mod, 'cleanup'):
+                mod.cleanup(prep)
         sigs = [v['sig'] for v in res.get('violations', [])]
         print('replay of %s: violations now: %s' % (args.replay, sigs or 'none'))
         for v in res.get('violations', []):
@@ -242,7 +249,10 @@ def main(modname, argv=None):
             return 1
         return 0
 
-    cases = mod.cases(args.tier, seed)
+    prep = None
+    if hasattr(mod, 'prepare'):
+        prep = mod.prepare(args.tier)          # e.g. scratch build; returns a JSON-able context handed to cases()
+    cases = mod.cases(args.tier, seed) if prep is None else mod.cases(args.tier, seed, prep)
     if args.only:
         cases = [c for c in cases if args.only in dumps(c)]
     rnd = random.Random(seed)
@@ -294,6 +304,8 @@ def main(modname, argv=None):
             viols.append((idx, {'sig': 'crash', 'what': payload, 'detail': ''}))
     unfinished = getattr(pool, 'unfinished', [])
     extra = {}
+    if hasattr(mod, 'cleanup'):
+        mod.cleanup(prep)
     if hasattr(mod, 'finish'):
         fin = mod.finish(args.tier, [results.get(i) for i in range(len(cases))], cases) or {}
         for v in fin.pop('violations', []):
